@@ -397,3 +397,26 @@ pub fn job_table(sh: &Shell) -> Vec<(i32, i32, Vec<i32>, Vec<i32>, String, bool)
     v.sort();
     v
 }
+
+// ---------------------------------------------------------------- completion
+
+/// `completers::path::complete_path`: (completion text, display, suffix) per candidate, in the order returned.
+/// suffix: "" = `Suffix::Default`, "none" = `Suffix::None`, otherwise the character of `Suffix::Some`.
+pub fn complete_path(word: &str, for_dir: bool) -> Vec<(String, Option<String>, String)> {
+    use lineread::complete::Suffix;
+    crate::completers::path::complete_path(word, for_dir)
+        .into_iter()
+        .map(|c| {
+            let sfx = match c.suffix {
+                Suffix::Default => String::new(),
+                Suffix::None => "none".to_string(),
+                Suffix::Some(ch) => ch.to_string(),
+            };
+            (c.completion, c.display, sfx)
+        })
+        .collect()
+}
+
+pub fn escape_path(path: &str) -> String { crate::tools::escape_path(path) }
+
+pub fn escaped_word_start(line: &str) -> usize { crate::completers::escaped_word_start(line) }
